@@ -183,8 +183,7 @@ def check_shims(ctx, S, RULE, directions=("from", "try_into")):
                 same = srcs == {fname}
                 ctx.inst(RULE, "%s::from %s" % (shim.split("::")[-1], fname), okf and same, "%s <- {%s}" % (fname, ", ".join(leaf_s(fb, l) for l in lv)), ff["at"])
             ctx.inst(RULE, "%s::from covers every metadata field" % shim.split("::")[-1], used == set(mfields), "metadata fields used: %s of %s" % (sorted(used), sorted(mfields)), ff["at"])
-        tb = body_of(fx, tf["key"])
-        ctx.touch_body(tb)
+        tb = ctx.region(None, policy="private", key=tf["key"], ps=True)
         news = tb.calls_named(meta + "::new")
         if len(news) != 1:
             ctx.bad(RULE, "%s::try_into" % shim, "expected one %s::new call, found %d" % (meta, len(news)))
@@ -203,6 +202,17 @@ def check_shims(ctx, S, RULE, directions=("from", "try_into")):
                 arg = news[0][1]["args"][pl[0].data - 1]
                 al = tb.trace(arg, (), None, {"__flow_all__": lambda t: callee_name(t) in ("models::layout::parse_datetime",) or
                                               (callee_name(t) or "").startswith("chrono::") or callee_name(t) in ("std::iter::Iterator::filter", "std::iter::Iterator::collect", "std::iter::IntoIterator::into_iter")})
+                # a table filled by insertions (helper with a loop instead of filter + collect): its content is what is inserted
+                al2 = []
+                for l in al:
+                    if l.kind == "call" and callee_name(l.data[1]) in ("std::collections::HashMap::new", "std::collections::BTreeMap::new") and not l.path:
+                        table = ("call", l.data[0], ())
+                        for (ii, it) in tb.calls_named("std::collections::HashMap::insert", "std::collections::BTreeMap::insert"):
+                            if table in root_ids(tb, it["args"][0]):
+                                al2 += tb.trace(it["args"][1]) + tb.trace(it["args"][2])
+                    else:
+                        al2.append(l)
+                al = al2
                 srcs = {l.path[0][1] for l in al if l.kind == "param" and l.data == 1 and l.path}
                 if not (al and srcs == {fl} and all((l.kind == "param" and l.data == 1) or l.kind in ("const", "agg") or (l.kind == "call" and "closure" in str(l.data[1].get("generics"))) for l in al)):
                     if not (srcs == {fl}):
@@ -221,7 +231,9 @@ def check_shims(ctx, S, RULE, directions=("from", "try_into")):
                         vl = tb.trace(v)
                         if ul and all(l.kind == "param" and l.data == 1 and l.path[:1] == (("f", "typ"),) for l in ul) and \
                                 vl and all(l.kind == "const" and l.data.get("str") == typ_const for l in vl):
-                            chk = True
+                            # the metadata is only built on the edge where the tag is the expected one
+                            if c[0] == "Eq" and news[0][0] in tb.edge_dominated(e):
+                                chk = True
             ctx.inst(RULE, "%s::try_into checks _type" % shim.split("::")[-1], chk,
                      "the shim's `_type` is compared with %r: %s%s" % (typ_const, chk, "" if chk else
                       " - any `_type` is accepted and silently re-serialised as %r" % typ_const), tf["at"])
